@@ -15,7 +15,7 @@ from keyshared import (ec, bip32, NETWORKS, N, H, on_backends, guarded, backend,
                        tagged_override, show_hd, show_priv, show_pub, spec_tokens, mk_hd, mk_key, opt, rbytes)
 
 PROP = "C09"
-MODS = ["EmbitModel.Props.C09"]
+MODS = ["EmbitModel.Props.C09", "EmbitModel.Props.C09X"]
 
 
 # the pure-Python backend's missing range checks are C08's findings (D9 / D10); a C09 case differs under `py` only there
@@ -172,6 +172,27 @@ def derive_case(c, s, path, kind):
                                     else "10-254" if len(path) < 255 else "255+"))
     line = "bip32.derive %s %d %s" % (spec_tokens(s), len(path), " ".join(str(int(x)) for x in path))
     expect_backends(c, line.rstrip(), answers, info)
+
+    # BIP32 as oracle for the whole path (Lean spec fold with bookkeeping, Spec/Bip32Path.lean; derive = this fold
+    # is C09X.derive_eq_spec_priv / _pub): key, chain code, depth, parent fingerprint, child number
+    if all(0 <= i < 2 ** 32 for i in path) and s["depth"] + len(path) <= 255 and s.get("c", True):
+        sl = "spec.derivenode %s %s %s %d %s %d %d %s" % (s["kind"], hx(s["key"]), hx(s["cc"]), s["depth"], hx(s["fp"]), s["cn"],
+                                                         len(path), " ".join(str(int(x)) for x in path))
+        for name, ans in answers:
+            if ans == "timeout":
+                continue
+            want = ans
+            if ans != "none":
+                t = ans.split()
+                if t[1] == "prv":
+                    want = "ok %s %s %s %s %s" % (t[2], t[4], t[6], t[7], t[8])
+                    if t[5] != hx(s["ver"]) or t[3] != "1":
+                        c.fail("derived key changed version or compression flag", dict(info, backend=name, op="derive", got=ans))
+                else:
+                    want = "ok %s %s %s %s %s" % (t[2], t[3], t[5], t[6], t[7])
+                    if t[4] != hx(s["ver"]):
+                        c.fail("derived key changed version", dict(info, backend=name, op="derive", got=ans))
+            c.expect(sl.rstrip(), want, dict(info, backend=name, check="spec-path"), proven=True, op="spec.derivenode")
 
     # path derivation equals repeated child derivation (directly on embit)
     def fold():
